@@ -198,3 +198,44 @@ def tasks(tier):
     import specs.C06 as C06
     return _t_c01e(tier) + [('accrual_state_changes', _renamed01(C06.t_state_changes, 'C06.', 'C01.e.')), ('accrual_conservation', _renamed01(C06.t_lemma_chain, 'C06.', 'C01.e.')),
                             ('accrual_booking', _renamed01(C06.t_accrue, 'C06.', 'C01.e.'))]
+
+
+# ---------------------------------------------------------------- C01.f: the two token-transfer helpers move exactly the amount they are given, between the accounts they are given, into the bank's own vault
+def t_spl_transfers(world):
+    import z3
+    obs = []
+    for which in ('deposit_spl_transfer', 'withdraw_spl_transfer'):
+        eng = world.engine(opaque=[r'invoke_transfer_checked$', r'token::transfer$|(^|::)transfer$', r'CpiContext', r'anchor_lang::', r'anchor_spl::', r'to_account_info'], merge=False, max_paths=2000)
+        f = world.fn(r'bank\.rs[^>]*>::%s$' % which)
+        names = [n for n, _ in f.params]
+        args = [eng.ex.fresh(ty, nm) for nm, (_, ty) in zip(['bank', 'amount', 'from', 'to', 'authority', 'mint', 'program', 'seeds', 'rem'] if which.startswith('withdraw') else ['bank', 'amount', 'from', 'to', 'authority', 'mint', 'program', 'rem'], f.params)]
+        res = eng.run_fn(f, args)
+        ob = Ob('C01.f.' + which, f'Bank::{which}: Ok => exactly one token transfer was issued, of exactly `amount`, from `from` to `to` under `authority`' +
+                ('; the destination is the bank\'s own liquidity vault (a deposit can only land in the vault the books refer to)' if which.startswith('deposit') else '; with the caller\'s signer seeds') + '; transfer errors propagated',
+                [f.name], 'loop-free; token-program CPI opaque; both the Token-2022 (mint given) and the classic path'); ob.paths = len(res)
+        nm = lambda v: getattr(eng.deref_val(v), 'name', None) or getattr(v, 'name', None)
+        for r, okc in ok_paths(res):
+            if ob.witness(eng, r, [okc]) is False: continue
+            Ev = [e for e in flat_events(r['events']) if e[0] == 'call']
+            t22 = [e for e in Ev if re.search(r'invoke_transfer_checked$', e[1])]; tcl = [e for e in Ev if re.search(r'(^|::)transfer$', e[1]) and 'invoke' not in e[1]]
+            if len(t22) + len(tcl) != 1: ob.structural(f'{len(t22)} Token-2022 + {len(tcl)} classic transfers on an accepting path', 'transfer-count'); continue
+            if t22:
+                e = t22[0]; amt = e[2][6].e; route = (nm(e[2][1]), nm(e[2][3]), nm(e[2][4]))
+            else:
+                e = tcl[0]; amt = e[2][1].e
+                ctx = [x for x in Ev if re.search(r'CpiContext.*new_with_signer$', x[1])]
+                tr = eng.deref_val(ctx[-1][2][1]) if ctx else None
+                route = tuple(nm(tr.fields.get(k)) for k in ('from', 'to', 'authority')) if isinstance(tr, StructV) else (None, None, None)
+            ob.prove(eng, r, [okc], z3.And(amt == args[1].e, zint(e[3].disc) == 0), 'the amount transferred is the amount passed in; CPI error propagated', role='transfer-amount')
+            ob.queries += 1
+            if route == ('from', 'to', 'authority'): ob.unsat += 1
+            else: ob.sat += 1; ob.cex.append({'ob': ob.oid, 'label': f'transfer accounts (from, to, authority) are {route}', 'role': 'transfer-route', 'model': {}, 'replay': None})
+            if which.startswith('deposit'):
+                ob.prove(eng, r, [okc], z3.Int('to.0*') == fsym('bank*', 'Bank', 'liquidity_vault'), 'destination key == bank.liquidity_vault', role='transfer-vault')
+        ob.need_witness(); obs.append(ob)
+    return obs
+
+
+_t_c01f = tasks
+def tasks(tier):
+    return _t_c01f(tier) + [('spl_transfers', t_spl_transfers)]
